@@ -417,8 +417,8 @@ func (cc *ccCtx) check(k int, cut map[int]int, power bool, reuse *recovery) *rec
 	if power {
 		kind = "power"
 	}
-	clockBack := false
-	pin := func() { r.C.Crash = &Crash{Pos: k, Cut: cut, Power: power, ClockBack: clockBack} }
+	clockBack, otherCfg := false, false
+	pin := func() { r.C.Crash = &Crash{Pos: k, Cut: cut, Power: power, ClockBack: clockBack, OtherCfg: otherCfg} }
 	rec := reuse
 	if rec == nil {
 		tree := vos.Replay(nil, journal, k, cut)
@@ -433,9 +433,18 @@ func (cc *ccCtx) check(k int, cut map[int]int, power bool, reuse *recovery) *rec
 		} else {
 			r.inc("fault_process_crash_images")
 		}
+		cfg := r.C.Cfg
+		if r.C.Crash == nil && ctx.images%5 == 3 || r.C.Crash != nil && r.C.Crash.OtherCfg {
+			// reopened under another reader configuration (see the crash arm)
+			cfg.IO ^= 1
+			cfg.Index = cfg.Index%3 + 1
+			cfg.Shards = []int{1, 3, 16}[k%3]
+			otherCfg = true
+			r.inc("fault_recovery_under_other_config")
+		}
 		var follow func(db *kv.DB, rec *recovery) *kv.DB
 		if power || ctx.images%4 == 0 || r.C.Crash != nil {
-			follow = ctx.usability(r.C.Cfg)
+			follow = ctx.usability(cfg)
 		}
 		// the wall clock stepped back across the crash to the instant the clients ran at (see the crash arm): ids
 		// the follow-up's batches draw from the clock must not collide with those of batches that died unsealed
@@ -444,7 +453,7 @@ func (cc *ccCtx) check(k int, cut map[int]int, power bool, reuse *recovery) *rec
 			ctx.clockBack = cc.clockB
 			clockBack = true
 		}
-		rec = ctx.recoverImage(tree, r.C.Cfg, false, follow)
+		rec = ctx.recoverImage(tree, cfg, false, follow)
 		ctx.clockBack = 0
 		os.RemoveAll(rec.root)
 	} else {
@@ -453,6 +462,9 @@ func (cc *ccCtx) check(k int, cut map[int]int, power bool, reuse *recovery) *rec
 	where := cc.describe(k, cut, power)
 	if clockBack {
 		where += "; the wall clock was stepped back to the instant of the concurrent phase while the process was down"
+	}
+	if otherCfg {
+		where += "; reopened with the other I/O back-end, another index type and shard count"
 	}
 	if rec.oracle == "infra" {
 		r.Infra = rec.failure
@@ -466,7 +478,7 @@ func (cc *ccCtx) check(k int, cut map[int]int, power bool, reuse *recovery) *rec
 	if rec.openErr != nil {
 		pin()
 		io := "std"
-		if r.C.Cfg.IO == 1 {
+		if (r.C.Cfg.IO == 1) != otherCfg {
 			io = "mmap"
 		}
 		r.fail("recovery-open-error", kind+":"+io+":"+errName(rec.openErr), "%s: Open of the crash image fails: %v", where, rec.openErr)
